@@ -87,26 +87,16 @@ func ruleHandleEvent(c *Ctx) {
 	sp.Branch = func(t *Tracer, fr *Frame, i *ssa.If, dir bool) []Ev {
 		if x, op, k, ok := cmpConst(i.Cond); ok {
 			if f, _ := fieldLoad(x); f == fState {
+				// several tests of the state on one path (an explicit list of states instead of a range
+				// comparison) are intersected after the trace
 				set := satisfying(op, k, dir, 5)
-				notLoaded := len(set) > 0
-				for v := range set {
-					if v > 2 {
-						notLoaded = false
+				var ss []string
+				for v := int64(0); v < 5; v++ {
+					if set[v] {
+						ss = append(ss, fmt.Sprint(v))
 					}
 				}
-				loaded := len(set) > 0
-				for v := range set {
-					if v <= 2 {
-						loaded = false
-					}
-				}
-				switch {
-				case notLoaded:
-					return []Ev{{Kind: "notloaded"}}
-				case loaded:
-					return []Ev{{Kind: "loaded"}}
-				}
-				return []Ev{{Kind: "state:mixed"}}
+				return []Ev{{Kind: "stateset", Note: strings.Join(ss, ",")}}
 			}
 		}
 		if f, s, eq, ok := stringCmp(i, dir); ok && f == fEvent {
@@ -152,6 +142,56 @@ func ruleHandleEvent(c *Ctx) {
 		return []Ev{{Kind: "branch:other", Note: p.InstrPos(i)}}
 	}
 	tr := runTrace(p, root, sp)
+	// fold the state tests of each path into one verdict: not loaded / loaded / undetermined
+	for pi, path := range tr.Paths {
+		may := map[string]bool{"0": true, "1": true, "2": true, "3": true, "4": true}
+		last := -1
+		for k, e := range path {
+			if e.Kind != "stateset" {
+				continue
+			}
+			last = k
+			allowed := map[string]bool{}
+			for _, x := range strings.Split(e.Note, ",") {
+				allowed[x] = true
+			}
+			for v := range may {
+				if !allowed[v] {
+					delete(may, v)
+				}
+			}
+		}
+		if last < 0 {
+			continue
+		}
+		verdict := "state:mixed"
+		notLoaded, loaded := len(may) > 0, len(may) > 0
+		for v := range may {
+			if v > "2" {
+				notLoaded = false
+			} else {
+				loaded = false
+			}
+		}
+		switch {
+		case notLoaded:
+			verdict = "notloaded"
+		case loaded:
+			verdict = "loaded"
+		}
+		var np []Ev
+		for k, e := range path {
+			if e.Kind == "stateset" {
+				if k == last {
+					e.Kind = verdict
+					np = append(np, e)
+				}
+				continue
+			}
+			np = append(np, e)
+		}
+		tr.Paths[pi] = np
+	}
 	c.inst(1)
 	pos := p.Pos(root.Pos())
 	name := fnName(root)
@@ -319,21 +359,23 @@ func ruleVersionBump(c *Ctx) {
 		sp.Branch = func(t *Tracer, fr *Frame, i *ssa.If, dir bool) []Ev {
 			if x, op, k, ok := cmpConst(i.Cond); ok {
 				if f, b := fieldLoad(x); f == fState {
-					set := satisfying(op, k, dir, 5)
-					nl := len(set) > 0
-					for v := range set {
-						if v > 2 {
-							nl = false
-						}
-					}
-					if nl {
-						return []Ev{{Kind: "guard:notloaded", Note: t.valKey(fr, b, t.cur)}}
-					}
+					return []Ev{stateSetEv(t.valKey(fr, b, t.cur), satisfying(op, k, dir, 5), 5)}
 				}
 			}
 			return nil
 		}
 		tr := runTrace(p, fn, sp)
+		foldStateSets(tr, 5, func(may map[int64]bool) string {
+			for v := range may {
+				if v > 2 {
+					return ""
+				}
+			}
+			if len(may) == 0 {
+				return ""
+			}
+			return "guard:notloaded"
+		})
 		bad := ""
 		n := 0
 		for _, path := range tr.Paths {
